@@ -6,6 +6,24 @@ import os
 ROOT = os.path.dirname(os.path.dirname(os.path.abspath(__file__)))
 
 CHECKS = {
+    "C04": {
+        "text": "Proof (Coq, closed under the global context): the gpg-stdout reader thread (hash each block, forward it, finish with the "
+                "checksum) composed with the stream splitter, for an ARBITRARY sequence of blocks and an arbitrary request-size limit m >= 1: "
+                "the request bodies are the stream cut at m, in order, at contiguous offsets from 0, their concatenation is the stream, and "
+                "the finalisation carries the stream's length and the provider's block-wise checksum; for the unlimited providers: one body "
+                "holding the whole stream, then its length and MD5. Tied to the code by running the real `vsb upload` against the provider "
+                "emulator with a recording gpg stand-in: stored object == encryptor output byte for byte (real gpg, and a stand-in emitting "
+                "exactly N bytes for N around multiples of the request limit - lowered to 64 KiB by a cfg-guarded hook, real 150 MiB in the "
+                "thorough tier); Dropbox body sizes == the proved `chunks`; decryption with the configured passphrase (spaces, quotes, "
+                "unicode, metacharacters) gives exactly <name>/, data.tar.zst, metadata.zst with the local bytes; a wrong passphrase fails; "
+                "no 24-byte window of the local files appears in the object; the passphrase is absent from gpg's argv and environment and "
+                "arrives through a pipe held by one descriptor; an encryptor killed by a signal never yields a final-named object.",
+        "note": "Partial: gpg itself (decrypt o encrypt = id, confidentiality) is trusted and only observed; the emulator is this check's "
+                "reading of the provider APIs; the per-function ties of the splitter and the hashers are C17's and C18's checks.",
+        "technique": "Coq proof (reader o splitter composition for arbitrary blocks and limits) + end-to-end runs of the real binary against "
+                     "a provider emulator with a recording / size-controlled encryptor stand-in",
+        "design": "7/C04",
+    },
     "C05": {
         "text": "Proof (Coq, closed under the global context): for each provider's upload_file, modelled as a function of the chunk-stream "
                 "events and an ARBITRARY reply oracle (any request may fail) against a server whose checksum is a function of what it "
